@@ -1,4 +1,6 @@
 (* Correspondence runner for C02 (StepMania reading).  A case = a .sm text and what SMMapSet.read returned.
+   cmpb: the tempo list is compared structurally only on the float-exact tempo stream (reseat decides on
+   remainders that are exactly 0 in rational arithmetic and +-1e-16 in binary64 otherwise).
    corr: the reader model (pinned behaviour, or with the proposed repair of the missing-#STOPS crash) returns the same;
    spec: on texts in the domain the reference interpreter sm_denote is matched by the implementation's result;
    wf:   the text is in the theorem's domain whenever the generator says it should be. *)
@@ -8,7 +10,7 @@ Import ListNotations.
 Open Scope Q_scope.
 
 Inductive c02case :=
-| C02Read (dom : bool) (tol : Q) (lines : list text) (idx : list Z) (out : option smset).
+| C02Read (dom : bool) (cmpb : bool) (tol : Q) (lines : list text) (idx : list Z) (out : option smset).
 
 Definition c02_wf (txt : text) : bool :=
   match sm_denote txt with
@@ -18,11 +20,11 @@ Definition c02_wf (txt : text) : bool :=
 
 Definition check (c : c02case) : verdict :=
   match c with
-  | C02Read dom tol lines idx out =>
+  | C02Read dom cmpb tol lines idx out =>
       let txt := mk_text lines idx in
       let wf := c02_wf txt in
-      {| corr_ok := opt_set_close tol (sm_read conf pinned txt) out
-                    || opt_set_close tol (sm_read conf repaired txt) out;
+      {| corr_ok := opt_set_close cmpb tol (sm_read conf pinned txt) out
+                    || opt_set_close cmpb tol (sm_read conf repaired txt) out;
          spec_ok := negb wf || match sm_denote txt, out with
                                | Some d, Some o => read_spec tol d o
                                | _, _ => false end;
